@@ -171,7 +171,7 @@ def check(ctx, m, src, cfg, rng):
         e_mor = {k: sorted(v) for k, v in new.morgan_hash_smiles(lo, min(hi, 3)).items()}
         if e_mor != d_mor:
             from rt.oracles import symmetry as SY
-            if SY.has_equivalent_substituents(m) or SY.symmetric_cage(m):
+            if SY.has_equivalent_substituents(m) or SY.symmetric_cage(m) or SY.symmetric_bridged_polycycle(m):
                 ctx.exclude('canonical-string-gap-in-fragment-smiles', {'smiles': src})
             else:
                 diff = [(k, d_mor.get(k), e_mor.get(k)) for k in set(d_mor) | set(e_mor) if d_mor.get(k) != e_mor.get(k)]
